@@ -265,6 +265,7 @@ def check(F, run, tier):
     run.add([o for o in obs if "ClmFile" in o.instance])
     run.add(refusals_before_write(F, S))
     run.add(c20.clm_names(F, S))
+    run.add(c20.clm_extension_strip(F, S))
     run.add(c18.sort_before_layout(F, S)[1:])
     run.add(c19.compare_path_filenames(F))
     run.add(c19.get_filename_shape(F))
